@@ -185,6 +185,11 @@ def check(chk):
                     if isinstance(c_, ast.Call) and isinstance(c_.func, ast.Name) and c_.func.id == fn_.name and k_ < len(c_.args):
                         out.extend(_trace(caller, c_.args[k_], depth - 1))
             return out or [(fn_, e)]
+        if depth and isinstance(e, ast.Name):
+            # a local given its value on several arms (if / else): every arm counts
+            ds_ = [st_.value for st_ in body_walk(fn_) if isinstance(st_, ast.Assign) and len(st_.targets) == 1 and src(st_.targets[0]) == e.id]
+            if len(ds_) > 1:
+                return [lf for d_ in ds_ for lf in _trace(fn_, d_, depth - 1)]
         if depth and isinstance(e, ast.Call) and isinstance(e.func, ast.Name) and mod.has(e.func.id) and mod.get(e.func.id) in scopes_[1:]:
             h_ = mod.get(e.func.id)
             out = []
